@@ -160,6 +160,59 @@ fn fam_powers(d: &mut Domain, hi: u64, algos: &[Algo]) {
     }
 }
 
+/// small-prime powers with exponents at word boundaries times a small cofactor:
+/// the trial-division loop and anything that special-cases powers of two.
+fn fam_smooth_prefix(d: &mut Domain, algos: &[Algo]) {
+    let cof: [&[u64]; 5] = [&[], &[3], &[211], &[211, 223], &[65537, 65539]];
+    for base in [2u64, 3, 5, 197, 199] {
+        for k in [1u32, 2, 31, 32, 33, 63, 64, 65, 66, 127, 128, 129, 191, 192, 193, 255, 256, 257] {
+            let bits = (k as f64 * (base as f64).log2()) as u32;
+            if bits > 440 {
+                continue;
+            }
+            let mut pw = Uint::ONE;
+            for _ in 0..k {
+                pw = pw * u(base);
+            }
+            for c in cof {
+                let mut primes: Vec<Uint> = vec![u(base); k as usize];
+                let mut n = pw;
+                for &q in c.iter() {
+                    n = n * u(q);
+                    primes.push(u(q));
+                }
+                primes.sort();
+                for &a in algos {
+                    d.push(n, a, "smooth-prefix", Some(primes.clone()));
+                }
+            }
+        }
+    }
+}
+
+/// semiprimes p*q just below 2^64 and 2^128 (top bit of the word set) and just above
+/// 2^63, 2^127: the 64-/128-bit specialised arithmetic at its limits.
+fn fam_word_boundary(d: &mut Domain, algos: &[Algo]) {
+    for b in [64u32, 128] {
+        for p in [211u64, 65537, 1000003, 16769023, 2147483659] {
+            let top = (W::ONE << b) - W::ONE;
+            let q = rm::prev_prime_w(&(top / W::from_digit(p)));
+            let n: Uint = rm::w_to(&(q * W::from_digit(p)));
+            let mut pr = vec![u(p), rm::w_to(&q)];
+            pr.sort();
+            let half = W::ONE << (b - 1);
+            let q2 = rm::next_prime_w(&(half / W::from_digit(p)));
+            let n2: Uint = rm::w_to(&(q2 * W::from_digit(p)));
+            let mut pr2 = vec![u(p), rm::w_to(&q2)];
+            pr2.sort();
+            for &a in algos {
+                d.push(n, a, "word-boundary", Some(pr.clone()));
+                d.push(n2, a, "word-boundary", Some(pr2.clone()));
+            }
+        }
+    }
+}
+
 fn product(v: &[Uint]) -> Option<Uint> {
     let mut bits = 0;
     for x in v {
@@ -336,6 +389,8 @@ pub fn run_c01(ctx: &Ctx) -> Report {
     fam_semiprimes(&mut d, ctx.pick(1 << 10, 1 << 12), &ALL);
     fam_triples(&mut d, 211, ctx.pick(300, 400), &ALL);
     fam_powers(&mut d, ctx.pick(1 << 10, 1 << 11), &ALL);
+    fam_smooth_prefix(&mut d, &ALL);
+    fam_word_boundary(&mut d, &[Algo::Auto, Algo::Rho, Algo::Squfof, Algo::Qs64, Algo::Ecm, Algo::Ecm128, Algo::Siqs]);
     let maxbits = |a: Algo| -> u32 {
         match a {
             Algo::Auto | Algo::Siqs => 110,
@@ -485,7 +540,7 @@ pub fn run_c01(ctx: &Ctx) -> Report {
         }
     }
     rep.nontrivial = nontrivial.len() as u64;
-    rep.rule = "cases = every n in [0,2^16] (quick) / [0,2^19] (thorough) x 10 selectors; all p*q with primes 211<=p<=q<2^10/2^12; all p*q*r over primes in [211,300/400]; all p^k<=2^64 and p^2*q; all multisets of <=3/4 primes of a 33-prime branch-point pool (x trial-division prefixes 1, 96, 199^2) within each selector's budgeted size; full product of 3x3x3x3x3 preference settings on Qs/Mpqs/Siqs over a 7-element corpus; abort budgets {0,1,2,3,5,8,13,21}. Oracle (harness bnum arithmetic): product == n, every element divides n, none is 0/1, sorted, n=0 -> [0], n=1 -> []. Non-trivial = distinct (n,selector,prefs) whose answer has >= 2 factors above 8 bits (an algorithm beyond trial division produced it). Panics/hangs/Err are C03's business and only counted here.".into();
+    rep.rule = "cases = every n in [0,2^16] (quick) / [0,2^19] (thorough) x 10 selectors; all p*q with primes 211<=p<=q<2^10/2^12; all p*q*r over primes in [211,300/400]; all p^k<=2^64 and p^2*q; small-prime powers b^k (b in {2,3,5,197,199}, k at word boundaries 1..257) x 5 cofactors; all multisets of <=3/4 primes of a 33-prime branch-point pool (x trial-division prefixes 1, 96, 199^2) within each selector's budgeted size; full product of 3x3x3x3x3 preference settings on Qs/Mpqs/Siqs over a 7-element corpus; abort budgets {0,1,2,3,5,8,13,21}. Oracle (harness bnum arithmetic): product == n, every element divides n, none is 0/1, sorted, n=0 -> [0], n=1 -> []. Non-trivial = distinct (n,selector,prefs) whose answer has >= 2 factors above 8 bits (an algorithm beyond trial division produced it). Panics/hangs/Err are C03's business and only counted here.".into();
     rep.set(
         "outcomes",
         J::O(by_outcome.iter().map(|(k, v)| (k.clone(), J::from(*v))).collect()),
@@ -515,6 +570,41 @@ pub fn run_c02(ctx: &Ctx) -> Report {
     );
     fam_triples(&mut d, 211, ctx.pick(330, 420), &[Algo::Auto, Algo::Ecm, Algo::Ecm128]);
     fam_powers(&mut d, ctx.pick(1 << 10, 1 << 12), &[Algo::Auto]);
+    fam_smooth_prefix(&mut d, &[Algo::Auto, Algo::Ecm, Algo::Siqs]);
+    fam_word_boundary(&mut d, &[Algo::Auto, Algo::Ecm128]);
+    // adversarial composites for the primality tests factor() relies on: the minimal strong
+    // pseudoprimes psi_k, Chernick Carmichael numbers (also above 64 bits), and their products
+    // with small primes / squares (the perfect-power and trial-division paths)
+    {
+        let psi: [u64; 8] = [
+            2047, 1373653, 25326001, 3215031751, 2152302898747, 3474749660383, 341550071728321,
+            3825123056546413051,
+        ];
+        let mut adv: Vec<Uint> = psi.iter().map(|&x| u(x)).collect();
+        adv.push(std::str::FromStr::from_str("318665857834031151167461").unwrap());
+        adv.push(std::str::FromStr::from_str("3317044064679887385961981").unwrap());
+        for (e, cnt) in [(10u32, 6usize), (18, 6), (20, 6), (24, 4), (30, 4), (36, 3), (40, 3)] {
+            let mut k = 1u64 << e;
+            let mut found = 0;
+            while found < cnt {
+                let (a, b, c) = (6 * k + 1, 12 * k + 1, 18 * k + 1);
+                if rm::is_prime_u64(a) && rm::is_prime_u64(b) && rm::is_prime_u64(c) {
+                    adv.push(u(a) * u(b) * u(c));
+                    found += 1;
+                }
+                k += 1;
+            }
+        }
+        for n in adv {
+            for algo in [Algo::Auto, Algo::Ecm, Algo::Siqs] {
+                d.push(n, algo, "pseudoprime-corpus", None);
+                d.push(n * u(2 * 7 * 197), algo, "pseudoprime-corpus", None);
+            }
+            if n.bits() <= 100 {
+                d.push(n * n, Algo::Auto, "pseudoprime-corpus", None);
+            }
+        }
+    }
     // sieve selectors "inside their working range": the README states parameters were
     // tested from 40 bits on; the repository's own tests go down to 30 bits for MPQS.
     // Here: all p*q with p,q primes in windows giving 40..44-bit n.
@@ -648,7 +738,7 @@ pub fn run_c02(ctx: &Ctx) -> Report {
                         c.json(),
                     );
                 }
-                if c.tag != "small" && i % 7919 == 0 {
+                if c.tag == "pseudoprime-corpus" && i % 11 == 0 || c.tag != "small" && i % 7919 == 0 {
                     rep.sample(J::obj(vec![("case", c.json()), ("result", J::s(fmt_list(fs)))]));
                 }
             }
@@ -674,7 +764,7 @@ pub fn run_c02(ctx: &Ctx) -> Report {
         rep.sample(d.cases[d.cases.len() - 1].json());
     }
     rep.nontrivial = nontrivial.len() as u64;
-    rep.rule = "Auto: every n in [0,2^17]/[0,2^21], all p*q with 211<=p<=q<2^11/2^13, all p*q*r over primes [211,330/420], all p^k<=2^64, p^2*q, all multisets of <=3/5 pool primes (x prefixes 1,96,199^2) up to 128/200 bits; Ecm/Ecm128: p*q below 600/2^11, triples, corpus to 90/110 bits; Qs/Mpqs/Siqs: all p*q over the primes in [2^20, 2^20+400/1400] (40-bit n) and corpus cofactors >= 40 bits to 72/100/128 (quick) or 80/120/160 (thorough) bits; thread counts {2,3,4,8,16} on a 5-element sub-corpus x {Auto,Siqs,Mpqs,Ecm}. Oracle: result equals the known sorted prime multiset (corpus built from reference-certified primes) or, for the plain ranges, every element passes the harness's own primality test (trial division + 12/24-base Miller-Rabin + strong Lucas, never yamaquasi's) and the product is n. Err on these inputs is a violation. Non-trivial = distinct (n,selector,prefs) with >= 2 factors above 8 bits.".into();
+    rep.rule = "Auto: every n in [0,2^17]/[0,2^21], all p*q with 211<=p<=q<2^11/2^13, all p*q*r over primes [211,330/420], all p^k<=2^64, p^2*q, the strong pseudoprimes psi_1..psi_13 and 32 Chernick Carmichael numbers of 37..135 bits (plain, x 2*7*197, squared; also through Ecm and Siqs), all multisets of <=3/5 pool primes (x prefixes 1,96,199^2) up to 128/200 bits; Ecm/Ecm128: p*q below 600/2^11, triples, corpus to 90/110 bits; Qs/Mpqs/Siqs: all p*q over the primes in [2^20, 2^20+400/1400] (40-bit n) and corpus cofactors >= 40 bits to 72/100/128 (quick) or 80/120/160 (thorough) bits; thread counts {2,3,4,8,16} on a 5-element sub-corpus x {Auto,Siqs,Mpqs,Ecm}. Oracle: result equals the known sorted prime multiset (corpus built from reference-certified primes) or, for the plain ranges, every element passes the harness's own primality test (trial division + 12/24-base Miller-Rabin + strong Lucas, never yamaquasi's) and the product is n. Err on these inputs is a violation. Non-trivial = distinct (n,selector,prefs) with >= 2 factors above 8 bits.".into();
     rep.set(
         "outcomes",
         J::O(by_outcome.iter().map(|(k, v)| (k.clone(), J::from(*v))).collect()),
@@ -694,6 +784,8 @@ pub fn run_c03(ctx: &Ctx) -> Report {
     fam_semiprimes(&mut d, ctx.pick(600, 1 << 11), &ALL);
     fam_triples(&mut d, 211, ctx.pick(280, 400), &ALL);
     fam_powers(&mut d, ctx.pick(600, 1 << 11), &ALL);
+    fam_smooth_prefix(&mut d, &ALL);
+    fam_word_boundary(&mut d, &[Algo::Auto, Algo::Rho, Algo::Squfof, Algo::Qs64, Algo::Ecm, Algo::Ecm128, Algo::Siqs, Algo::Pm1]);
     // (d) edge set for all selectors (all <= 64 bits)
     for n in edge_set() {
         for &a in &ALL {
@@ -848,12 +940,132 @@ pub fn run_c03(ctx: &Ctx) -> Report {
         rep.sample(d.cases[d.cases.len() - 1].json());
     }
     rep.nontrivial = nontrivial.len() as u64;
-    rep.rule = "cases = every n in [0,2^15]/[0,2^18] x 10 selectors; all p*q (211<=p<=q<600/2^11), p*q*r, p^k<=2^64, p^2*q x 10 selectors; edge set {2^k +- d : k in {8,16,24,31,32,40,48,52,56,63,64}, d<=64} x 10 selectors; pool-prime multisets (<=2/3) x prefixes {1,96}; primes, prime squares and smooth*prime at 64,128,256,400,448,500 bits x 10 selectors; hard composites under a 3-poll abort budget; oversize (501,512,513,600,1000-bit) primes and composites. Each case runs in a subprocess shard in this build profile; oracle = the call returns (Ok or Err). A panic (with source site), abort/signal or per-case timeout is a violation keyed by (selector, profile, site, size class). Non-trivial = distinct cases that reached an algorithm beyond trial division (>=2 factors above 8 bits, Err, or n above 64 bits).".into();
+    rep.rule = "cases = every n in [0,2^15]/[0,2^18] x 10 selectors; all p*q (211<=p<=q<600/2^11), p*q*r, p^k<=2^64, p^2*q x 10 selectors; edge set {2^k +- d : k in {8,16,24,31,32,40,48,52,56,63,64}, d<=64} x 10 selectors; semiprimes p*q just below 2^64, 2^128 and just above 2^63, 2^127 (5 values of p); pool-prime multisets (<=2/3) x prefixes {1,96}; primes, prime squares and smooth*prime at 64,128,256,400,448,500 bits x 10 selectors; hard composites under a 3-poll abort budget; oversize (501,512,513,600,1000-bit) primes and composites. Each case runs in a subprocess shard in this build profile; oracle = the call returns (Ok or Err). A panic (with source site), abort/signal or per-case timeout is a violation keyed by (selector, profile, site, size class). Non-trivial = distinct cases that reached an algorithm beyond trial division (>=2 factors above 8 bits, Err, or n above 64 bits).".into();
     rep.set(
         "outcomes",
         J::O(by_outcome.iter().map(|(k, v)| (k.clone(), J::from(*v))).collect()),
     );
     rep.assumptions.push("panic = observable crash; stack exhaustion and aborts are observed as worker death".into());
+    rep
+}
+
+// ------------------------------------------------------------------ C04 supplement
+
+/// Free-running supplement of C04 (NOT the deciding step, which is the loom engine): real
+/// rayon pools of every size 2..16 on a sub-corpus that completes, plus large inputs (where
+/// rayon hands far-away chunks of the work range to the pool threads) under a poll-budget
+/// abort. Same oracle: returns, no panic, product n, complete where the sequential run is.
+pub fn run_c04_supp(ctx: &Ctx) -> Report {
+    let mut rep = Report::new("model_checking");
+    let mut d = Domain::new();
+    let pool = prime_pool();
+    let idx = |bits: u32| pool.iter().position(|p| p.bits() > bits).unwrap();
+    let sub: Vec<Vec<Uint>> = vec![
+        vec![pool[idx(31)], pool[idx(31) + 1]],
+        vec![pool[idx(39)], pool[idx(47)]],
+        vec![pool[idx(47)], pool[idx(51)]],
+        vec![u(1000003), u(1000033), u(1000037), u(1000039)],
+    ];
+    for s in &sub {
+        let n = product(s).unwrap();
+        let mut primes = s.clone();
+        primes.sort();
+        for t in 1..=16usize {
+            for a in [Algo::Auto, Algo::Siqs, Algo::Mpqs, Algo::Qs, Algo::Ecm] {
+                if a == Algo::Qs && n.bits() > 72 {
+                    continue;
+                }
+                for (lf, db) in [(None, None), (Some(30u64), Some(true))] {
+                    let prefs = PrefSpec {
+                        threads: Some(t),
+                        large_factor: lf,
+                        use_double: db,
+                        ..Default::default()
+                    };
+                    d.push_prefs(n, a, "threads", Some(primes.clone()), prefs);
+                }
+            }
+        }
+    }
+    // large inputs: the parallel loops start far into their work ranges
+    for k in ctx.pick(vec![130u32, 260], vec![130, 200, 260, 300]) {
+        let p = rm::next_prime_w(&(W::ONE << (k / 2)));
+        let q = rm::next_prime_w(&(W::ONE << (k - k / 2 - 1)));
+        let n: Uint = rm::w_to(&(p * q));
+        for t in [2usize, 3, 16] {
+            for a in [Algo::Mpqs, Algo::Siqs] {
+                let prefs = PrefSpec {
+                    threads: Some(t),
+                    abort_after: Some(ctx.pick(24, 200)),
+                    ..Default::default()
+                };
+                d.push_prefs(n, a, "large+abort", None, prefs);
+            }
+        }
+    }
+    let cfg = SweepCfg {
+        shards: 4,
+        case_timeout: Duration::from_secs(ctx.pick(120, 600)),
+    };
+    let results = run_sweep(ctx, &d.cases, &cfg);
+    timing(&d.cases, &results);
+    let mut outcomes = std::collections::BTreeSet::new();
+    for (i, r) in results.iter().enumerate() {
+        let c = &d.cases[i];
+        rep.evaluations += 1;
+        let key = format!("supp;algo={};profile={}", algo_name(c.algo), ctx.profile);
+        match &r.outcome {
+            Outcome::Ok(fs) => {
+                outcomes.insert((c.n, algo_name(c.algo), c.prefs.threads));
+                let mut bad = check_product(c, fs).err();
+                if let Some(p) = &d.expect[i].primes {
+                    if fs != p {
+                        bad = Some(format!("expected the complete factorization [{}]", fmt_list(p)));
+                    }
+                }
+                if let Some(b) = bad {
+                    rep.violation(
+                        format!("{};what=bad-result", key),
+                        format!("schedule-dependent? n={} prefs={} -> [{}]: {}", c.n, c.prefs.encode(), fmt_list(fs), b),
+                        c.json(),
+                    );
+                }
+            }
+            Outcome::Err => {
+                outcomes.insert((c.n, algo_name(c.algo), c.prefs.threads));
+                if d.expect[i].primes.is_some() {
+                    rep.violation(
+                        format!("{};what=failure", key),
+                        format!("n={} prefs={} -> Err although the single-threaded run is complete", c.n, c.prefs.encode()),
+                        c.json(),
+                    );
+                }
+            }
+            Outcome::Panic { site, msg } => rep.violation(
+                format!("{};what=panic;site={}", key, site),
+                format!("n={} prefs={} panicked at {}: {}", c.n, c.prefs.encode(), site, msg.chars().take(200).collect::<String>()),
+                c.json(),
+            ),
+            Outcome::Hang => rep.violation(
+                format!("{};what=hang", key),
+                format!("n={} prefs={} did not return within the cap", c.n, c.prefs.encode()),
+                c.json(),
+            ),
+            Outcome::Crash(s) => {
+                if s.starts_with("machinery") {
+                    rep.machinery(format!("{} on {}", s, c.encode()));
+                } else {
+                    rep.violation(format!("{};what=crash", key), format!("n={} prefs={} killed the process: {}", c.n, c.prefs.encode(), s), c.json());
+                }
+            }
+        }
+    }
+    rep.nontrivial = outcomes.len() as u64;
+    rep.sample(d.cases[0].json());
+    rep.sample(d.cases[d.cases.len() - 1].json());
+    rep.set("supplementary_free_running_cases", J::from(d.cases.len()));
+    rep.rule = "supplement (free-running, real rayon): 4 inputs x thread counts 1..16 x {Auto,Siqs,Mpqs,Qs,Ecm} x {default, large_factor=30+use_double}; 130-/260-bit (thorough: also 200, 300) semiprimes x {Mpqs,Siqs} x threads {2,3,16} under a poll-budget abort".into();
+    rep.exhaustive = true;
     rep
 }
 
